@@ -177,6 +177,16 @@ theorem translated_setEnvironmentVariable_eq_model (E : Env) (s : GenP.ES) :
   unfold GenP.setEnvironmentVariable GenP.setEnvironmentVariable_b1 setEnvironmentVariable envUnset envSet
   by_cases hv : v.isEmpty = true <;> by_cases hn : validName n = true <;> simp [hv, hn]
 
+/-- `getEnvironmentVariable(name, defaultValue)` as translated is the model's function, for every environment, name and default
+    (`getenv` = look-up in the environment: null or the variable's value) -/
+theorem translated_getEnvironmentVariable_eq_model (E : Env) (s : GenP.EG) :
+    ∃ s', GenP.getEnvironmentVariable E s = some (.ret (getEnvironmentVariable s.env s.name s.defaultValue) s') ∧ s'.env = s.env := by
+  obtain ⟨n, d, e, v⟩ := s
+  unfold GenP.getEnvironmentVariable GenP.getEnvironmentVariable_b1 getEnvironmentVariable envGet
+  cases h : List.find? (fun kv => kv.1 == n) e with
+  | none => simp
+  | some kv => simp
+
 -- the order of the system calls of join() on an object holding all three ends (descriptors 5, 6, 7; pid 42)
 example : (match GenP.join ⟨[], [], []⟩ ⟨5, 6, 7, 42, 0, 0, 0, 0, 0, ⟨[], [some (3 * 256)]⟩⟩ with
     | some (.ret true s) => some (s.k.trace, s.exitCode) | _ => none) =
